@@ -1306,7 +1306,7 @@ DTLS_CHECK_REPLAY:
         Body is single byte with value 1 to indicate that the next message
         will be encrypted using the negotiated cipher suite
  */
-        if (pend - p < 1)
+        if (pend - p != 1)
         {
             ssl->err = SSL_ALERT_ILLEGAL_PARAMETER;
             psTraceErrr("Invalid length for CipherSpec\n");
